@@ -8,11 +8,12 @@ run; the parser implements the productions `modelProds`, which `C03_query_tables
 the same builder callbacks; operands are expressions of any size, printed by the expression printer of C03 and read by the expression
 parser of C02, and must meet the computed criterion `good` of C03 (the exception shapes of the expression level carry over unchanged).
 
-Outside the theorem (correspondence and testing in checks/c03.py): the Büchi form `A[] (p and A<> q)`, the statistical queries
-(`Pr`, `E`, `simulate`), strategies and `under`, MITL; white space inside the layouts (the model is at token level).
+Outside the theorem (correspondence and testing in checks/c03.py): the Büchi form `A[] (p and A<> q)`, `Pr[..](..) <= p` (the builder
+negates and computes 1 - p), strategies and `under`, MITL; white space inside the layouts (the model is at token level).
 -/
 import UtapModel.Lemmas.Query
 import UtapModel.Lemmas.QuerySmc
+import UtapModel.Lemmas.QuerySmc2
 import UtapModel.Spec.OperatorTable
 
 namespace UtapModel.C03Query
@@ -84,5 +85,48 @@ open UtapModel.QuerySmc in
 theorem C03_smc_box_until_witness :
     parseS (sprint (.pr true { kind := .time, bound := .atom (.nat 9), runs := none } x gt1)) ≠
       some (.pr true { kind := .time, bound := .atom (.nat 9), runs := none } x gt1) := by decide +kernel
+
+/-! ### the remaining statistical forms (Model/QuerySmc2.lean): `Pr[B](<> e) >= p`, `Pr[B](<> a) >= Pr[B']([] b)`, `simulate[B]{..} : n : e` -/
+
+open UtapModel.QuerySmc in
+/-- **tie T**: the productions of these forms are productions of the current grammar, with the same callbacks -/
+theorem C03_smc2_tables : ∀ p ∈ modelProdsSmc2, p ∈ queryProds := by decide +kernel
+
+open UtapModel.QuerySmc in
+/-- **printing a hypothesis test, a comparison of probabilities or a filtered simulation and re-parsing it reproduces the query**: any
+    bound type, operands of any size; a comparison carries no run counts (the builder refuses them), a filtered simulation always
+    prints its run count and its number of accepting runs -/
+theorem C03_smc2_roundtrip (q : XQuery) (h : q.wf = true) : parseX (xprint q) = some q := smc2_roundtrip q h
+
+open UtapModel.QuerySmc in
+theorem C03_smc2_idempotent (q q' : XQuery) (h : q.wf = true) (hp : parseX (xprint q) = some q') : xprint q' = xprint q := by
+  rw [C03_smc2_roundtrip q h] at hp
+  injection hp with hp
+  rw [← hp]
+
+open UtapModel.QuerySmc in
+/-- the head `B ]( <> e )` of a probability query is read back in front of anything -/
+theorem C03_smc2_head_roundtrip (b : Bnd) (hb : b.wf = true) (box : Bool) (e : Expr) (he : goodE e = true) (rest : List Tok) :
+    prHead (bndToks P b ++ .rb :: .lp :: .sym (qid (pathName box)) :: (P e ++ .rp :: rest)) = some (b, box, e, rest) :=
+  prHead_print b hb box e he rest
+
+open UtapModel.QuerySmc in
+example : (XQuery.cmp { kind := .time, bound := .atom (.nat 10), runs := none } false gt1
+    { kind := .expr (.atom (.ident "c")), bound := .atom (.nat 5), runs := none } true x).wf = true := by decide +kernel
+open UtapModel.QuerySmc in
+example : (XQuery.reach { kind := .steps, bound := .atom (.nat 10), runs := some 5 } [x, gt1] 3 (.pre (tokOfText "!") x)).wf = true := by
+  decide +kernel
+open UtapModel.QuerySmc in
+example : toksTextQ (xprint (.qual true { kind := .time, bound := .atom (.nat 9), runs := some 7 } gt1 "0.5")) =
+    "Pr [ <= 9 ; 7 ] ( [] x > 1 ) >= 0.5" := by decide +kernel
+open UtapModel.QuerySmc in
+example : toksTextQ (xprint (.reach { kind := .time, bound := .atom (.nat 9), runs := some 1 } [x] 0 gt1)) =
+    "simulate [ <= 9 ; 1 ] { x } : 0 : x > 1" := by decide +kernel
+open UtapModel.QuerySmc in
+/-- the hypothesis on comparisons cannot be dropped: a run count is not printed, so it does not come back -/
+theorem C03_smc2_cmp_runs_witness :
+    parseX (xprint (.cmp { kind := .time, bound := .atom (.nat 9), runs := some 3 } false x { kind := .time, bound := .atom (.nat 9), runs := none } false x)) ≠
+      some (.cmp { kind := .time, bound := .atom (.nat 9), runs := some 3 } false x { kind := .time, bound := .atom (.nat 9), runs := none } false x) := by
+  decide +kernel
 
 end UtapModel.C03Query
